@@ -13,7 +13,8 @@ EXPLANATION = ("D1 windows keep size, offset and setback (plain copies of the so
                "D3 every stored azimuth goes through the single convention conversion orientation_bdl_to_52016 / normalize(., -180, 180), or is a wall azimuth +- const")
 DECIDED = ["D1 window geometry is copied field by field", "D2 rotation covariance, necessary part (dependence sets)", "D3 one convention-conversion point for azimuths",
            "D4 wall azimuth / tilt / position / edge polygon and both kinds of shade (rectangle, vertex-defined) as formulas in the BDL quantities, incl. the sign of the building rotation "
-           "and the three-vertex threshold (rules/_c03geom.py)", "D5 a storey's data wins over the space's own where the statement says so"]
+           "and the three-vertex threshold (rules/_c03geom.py)", "D5 a storey's data wins over the space's own where the statement says so",
+           "D6 the default tilt of an element without TILT (16 cells); the parser's Polygon helpers do not round"]
 UNDECIDED = ["positions, normals, areas within 1 cm as numbers", "outline reproduction of floors/ceilings (polygon of a horizontal element)", "the 2D turn that carries vertex-defined shade corners into their plane"]
 ASSUMPTIONS = ["nalgebra point/rotation constructors"]
 LEVEL_TEXT = ("Partial: necessary conditions of the geometry property are decided from def-use provenance and normalised formulas of the converter's geometry literals - window "
